@@ -12,11 +12,11 @@ pub fn bodies(tier: &str) -> Vec<BodySpec> {
     let b = |body: VisBody, bound: usize, secs: f64| BodySpec { body: Arc::new(body), bound, secs };
     let init = vec![("x", "a", "0"), ("x", "b", "0")];
     vec![
-        b(VisBody { name: "repeatable-read|ingestion|writer [focus:write-path]", kind: Kind::Plain, workers: 0, keyspaces: vec!["x"], initial: init.clone(), prerotate: vec![], threads: vec![vec![Ingest("x", vec![("a", "5"), ("b", "5")])], vec![Ins(("x", "ab", "1"))], vec![SnapHold(vec![("x", "ab"), ("x", "a")])]], finals: Finals::None }, 2, if q { 5.0 } else { 300.0 }),
+        b(VisBody { name: "repeatable-read|ingestion|writer [focus:write-path]", kind: Kind::Plain, workers: 0, keyspaces: vec!["x"], initial: init.clone(), prerotate: vec![], threads: vec![vec![Ingest("x", vec![("a", "5"), ("b", "5")])], vec![Ins(("x", "ab", "1"))], vec![SnapHold(vec![("x", "ab"), ("x", "a")])]], finals: Finals::None }, 2, if q { 4.0 } else { 300.0 }),
         b(VisBody { name: "repeatable-read|ingestion|writer", kind: Kind::Plain, workers: 0, keyspaces: vec!["x"], initial: init.clone(), prerotate: vec![], threads: vec![vec![Ingest("x", vec![("a", "5"), ("b", "5")])], vec![Ins(("x", "ab", "1"))], vec![SnapHold(vec![("x", "ab"), ("x", "a")])]], finals: Finals::None }, 2, if q { 3.0 } else { 300.0 }),
-        b(VisBody { name: "repeatable-read|batch committer|second writer", kind: Kind::Plain, workers: 0, keyspaces: vec!["x", "z"], initial: init.clone(), prerotate: vec![], threads: vec![vec![SnapReadTwice(vec![("x", "a"), ("x", "b")])], vec![Batch(vec![("x", "a", "1"), ("x", "b", "1")])], vec![Ins(("z", "a", "9"))]], finals: Finals::None }, 2, if q { 5.0 } else { 300.0 }),
+        b(VisBody { name: "repeatable-read|batch committer|second writer", kind: Kind::Plain, workers: 0, keyspaces: vec!["x", "z"], initial: init.clone(), prerotate: vec![], threads: vec![vec![SnapReadTwice(vec![("x", "a"), ("x", "b")])], vec![Batch(vec![("x", "a", "1"), ("x", "b", "1")])], vec![Ins(("z", "a", "9"))]], finals: Finals::None }, 2, if q { 4.0 } else { 300.0 }),
         b(VisBody { name: "repeatable-read|batch committer|second writer [reopened]", kind: Kind::Plain, workers: 0, keyspaces: vec!["x", "z"], initial: init.clone(), prerotate: vec![], threads: vec![vec![SnapReadTwice(vec![("x", "a"), ("x", "b")])], vec![Batch(vec![("x", "a", "1"), ("x", "b", "1")])], vec![Ins(("z", "a", "9"))]], finals: Finals::None }, 2, if q { 3.0 } else { 200.0 }),
-        b(VisBody { name: "repeatable-read|writer|worker(tiny flush+compact)", kind: Kind::Plain, workers: 1, keyspaces: vec!["x"], initial: init.clone(), prerotate: vec!["x"], threads: vec![vec![SnapReadTwice(vec![("x", "a"), ("x", "b")])], vec![Ins(("x", "a", "1")), Rotate("x"), Ins(("x", "a", "2"))]], finals: Finals::None }, if q { 1 } else { 2 }, if q { 5.0 } else { 300.0 }),
-        b(VisBody { name: "repeatable-read|occ commit of a sibling tx|rotation", kind: Kind::Occ, workers: 0, keyspaces: vec!["x"], initial: init.clone(), prerotate: vec![], threads: vec![vec![SnapReadTwice(vec![("x", "a"), ("x", "b")])], vec![Tx(vec![("x", "a", "1")]), Rotate("x"), Tx(vec![("x", "b", "1")]), Rotate("x"), Major("x")]], finals: Finals::None }, if q { 1 } else { 2 }, if q { 4.0 } else { 300.0 }),
+        b(VisBody { name: "repeatable-read|writer|worker(tiny flush+compact)", kind: Kind::Plain, workers: 1, keyspaces: vec!["x"], initial: init.clone(), prerotate: vec!["x"], threads: vec![vec![SnapReadTwice(vec![("x", "a"), ("x", "b")])], vec![Ins(("x", "a", "1")), Rotate("x"), Ins(("x", "a", "2"))]], finals: Finals::None }, if q { 1 } else { 2 }, if q { 4.0 } else { 300.0 }),
+        b(VisBody { name: "repeatable-read|occ commit of a sibling tx|rotation", kind: Kind::Occ, workers: 0, keyspaces: vec!["x"], initial: init.clone(), prerotate: vec![], threads: vec![vec![SnapReadTwice(vec![("x", "a"), ("x", "b")])], vec![Tx(vec![("x", "a", "1")]), Rotate("x"), Tx(vec![("x", "b", "1")]), Rotate("x"), Major("x")]], finals: Finals::None }, if q { 1 } else { 2 }, if q { 3.0 } else { 300.0 }),
     ]
 }
